@@ -736,6 +736,12 @@ def run(ctx):
         nthreads_seen.add(r.threads)
         res.stats["run_wall_max_s"] = max(res.stats.get("run_wall_max_s", 0), int(r.wall + 0.5))
         res.add_stat("threads_total", r.threads + 2)
+        if h.run and "cache_size" in h.run:
+            res.add_stat("session_cache_capacity_probes", 1)
+            if h.run["cache_probe_done"] != h.run["cache_size"]:
+                res.incon.append("run %s: capacity probe completed %d of %d handshakes" % (r.replay, h.run["cache_probe_done"], h.run["cache_size"]))
+            elif h.run["cache_probe_ids"] < h.run["cache_size"]:
+                res.add_violation("c20:session-cache-entries-lost", "run %s: after every session of the run was deleted, %d sessions held open at once were given only %d session ids (table size %d): %d cache entries never returned to the pool - no sequential order of the same operations leaves the cache smaller" % (r.replay, h.run["cache_size"], h.run["cache_probe_ids"], h.run["cache_size"], h.run["cache_size"] - h.run["cache_probe_ids"]), r.replay)
         if h.run:
             res.add_stat("nst_gap_failpoint_waits", h.run.get("gap_hits", 0)); res.add_stat("nst_gap_failpoint_keys_emptied_meanwhile", h.run.get("gap_served", 0))
         before = sum(v["count"] for v in res.viol.values())
